@@ -12,22 +12,22 @@ STATUS = {
  "C01": ("desugarS/B/Else_sound, program_desugar_sound, desugarB_core, elif_order, strRel_* order lemmas, compile_preserves_meaning_partial (Safe), grouping_lost_witness, only_not_regroups (Props/C01, Sem/Core, Sem/Regroup)", "compiled program stdout/stop = re-reading model (restructuring + rustc's grouping of the emitted text + interpreter)", "CPython runs the same program; wrong results are attributed to the grouping finding only if the program is not Safe AND the re-reading model reproduces them; 16 feature templates outside the modelled core (classes + inheritance + overriding, traits with defaults, enums + match, Option/Result/?, f-strings, string methods, dicts, comprehensions, slices, tuples, counting-down ranges, recursion) with seeded constants, CPython as the reference (oracle only)"),
  "C02": ("accepted_body_builds_partial via bind_sim / stmt_sim / block_sim / else_sim / tyE_sim; nested_retype_accepted witness (Props/C02, Sem/CoreTyping)", "checker verdict + build outcome of 9 variants of generated bodies = chkB / rustB", "accepted ⇒ builds; 22 per-construct probes; 24 ill-typed programs (one broken static rule each: if the checker lets one through it must still build); every sampled subset of the derives on a model and a class; multi-file projects through the real `incan build`"),
  "C03": ("every_position_checked (mutual), elif_was_skipped witness, reassign_immutable_rejected / reassign_mutable_accepted / fresh_name_accepted, old_checker_missed_nested, omitted_variant_reported, complete_match_accepted, wrong_argument_reported, wrong_named_argument_reported, fitting_arguments_accepted, mutation_through_immutable_rejected / mutation_through_mutable_accepted (local_lookup_misses_nested_mutation witness), surplus_argument_reported, unknown_keyword_reported, missing_argument_reported, missing_required_method_reported, wrong_signature_reported, missing_required_field_reported, wrong_field_type_reported, conforming_adopter_accepted (Props/C03, Sem/Checker)", "single edits at every expression position / statement list of corpus + repository programs; scope depth grid (7 forms incl. `mut self` calls, field and index assignments = checkMutateThrough); random matches (variant names related by affix); calls with 1-4 parameters (incl. trait-typed, defaults), positional / keyword arguments, arity edits = validateArgs / surplusArgs / missingParams; generated trait / adopter pairs = conformance", "each edit must be rejected with a diagnostic on the edited lines; documented mutability rule; coverage of match arms; every wrong / surplus / unknown argument reported at that argument, every missing one on the call, and nothing else; adoption errors name exactly the missing / mistyped members, inside the adopter"),
- "C04": ("floorDiv/mod = Int.fdiv/fmod for all Int64 pairs, core=std, identity, zero divisor, no other failure", "10 in-process streams: both integer kernels, 4 operand-type pairs of py_div/py_mod/py_floor_div, f64 wrappers; 6 compiled streams: binary `/ // %` and compound `/= //= %=` on int / float / mixed variables through the real pipeline + rustc (zero divisors included)", "Python `//`, `%`, `/`"),
+ "C04": ("floorDiv/mod = Int.fdiv/fmod for all Int64 pairs, core=std, identity, zero divisor, no other failure", "10 in-process streams: both integer kernels, 4 operand-type pairs of py_div/py_mod/py_floor_div, f64 wrappers; compiled streams: binary `/ // %` and compound `/= //= %=` on int / float / mixed operands, each spelled as variables or with the right / left operand a literal, random + a deterministic grid (operator x spelling x sign combination x kind), through the real pipeline + rustc (zero divisors included)", "Python `//`, `%`, `/`"),
  "C05": ("slice/index/range = CPython for all i64 (saturating step), str=list copy", "9 streams incl. both copies, range with cap, dict_get", "CPython `s[a:b:c]`, `range`; slice syntax on the real parser"),
  "C06": ("const_value_sound, const_type_sound (binConst_type), index_error_agrees, runtime_index_error_reported, slice_step_zero_agrees, static_fold_sound, ok_implies_no_repeat, cycle_is_rejected, never_out_of_fuel, resolution_terminates (Props/C06, Sem/ConstEval)", "checker on `const K = E` (verdict, type, const_values); same expression in a compiled function body; compiled consts; dependency graphs", "Python evaluates the expression; const type = body type; independent cycle DFS"),
  "C07": ("phases_agree by structural induction; policy table by cases", "policy table (exhaustive), checker/IR/plan types over literals, parameters and operands only the checker can type (calls, fields, method calls), let/return/argument/compound verdicts, emit plan of the desugared compound assignment on a local variable and on a `mut` parameter", "documented table; Rust type of every emitted shape"),
  "C08": ("roundtrip over the expression ladder (WL derivations), fmt injective; literals: string_literal_roundtrip / string_literal_lexes / bytes_literal_roundtrip (formatter escaping read back by the lexer, Syntax/Literals), apostrophe_must_stay_bare witness", "parse, fmt, round trip (incl. rejections); fmtStr / fmtBytes = text written by the real formatter (every byte value); scanStr / scanBytes = real lexer on arbitrary literal texts", "AST equality on corpus + generators"),
- "C09": ("fmt idempotent on the ladder; CLI decision logic; runFiles read-only", "CLI single file (formatted / unformatted / unparsable + near-formatted variants: no final newline, extra blank lines at the end, trailing space, leading blank line, CRLF) + directory", "idempotence, check consistency (--check reports what fmt would rewrite), hygiene"),
- "C10": ("8 invariance theorems over all states/continuations; reindent under monotone maps", "layout model vs real lexer kinds", "AST equality under 10 edit kinds; text cut at the end of seeded logical lines parses the same with and without its final newline"),
- "C11": ("get_line_info slices on boundaries, EOF, C19 ranges (partial scope)", "format_error rendering incl. long lines", "whole pipeline fuzz with watchdog"),
- "C12": ("manifest_order_independent; module tree (Tool/ModuleTree): children_order_independent, children_nodup, carrier_order_independent, never_file_and_modrs, old_generator_wrote_both witness", "manifest repeated with fresh hash maps; generate_nested on generated path sets (shared prefixes, module = directory), three fresh hash maps each: files written + `pub mod` lines per directory = model", "3 processes × environments, in-process twice"),
+ "C09": ("fmt idempotent on the ladder; CLI decision logic; runFiles read-only; writer_hygiene (Tool/Writer: indentation, line breaks and blank lines add no tab and no trailing whitespace for any operation sequence), indenting_newline_leaves_trailing_blanks witness", "CLI single file (formatted / unformatted / unparsable + near-formatted variants: no final newline, extra blank lines at the end, trailing space, leading blank line, CRLF) + directory; real FormatWriter (hook) = model on generated operation sequences", "idempotence, check consistency (--check reports what fmt would rewrite), hygiene; generated types in every position (one-element tuple types, function types), nested match arms"),
+ "C10": ("8 invariance theorems over all states/continuations; reindent under monotone maps", "layout model vs real lexer kinds", "AST equality under 11 edit kinds (incl. blanks after the last line break); text cut at the end of seeded logical lines parses the same with and without its final newline"),
+ "C11": ("get_line_info slices on boundaries, EOF, C19 ranges (partial scope)", "format_error rendering incl. long lines", "whole pipeline fuzz with watchdog, incl. parseable programs with odd declaration graphs (generated extends cycles / self loops / unknown bases x trait adoption x uses that walk the graph)"),
+ "C12": ("manifest_order_independent; module tree (Tool/ModuleTree): children_order_independent, children_nodup, carrier_order_independent, never_file_and_modrs, old_generator_wrote_both witness", "manifest repeated with fresh hash maps; generate_nested on generated path sets (shared prefixes, module = directory), three fresh hash maps each: files written + `pub mod` lines per directory = model", "3 processes × environments, in-process twice; error-provoking programs (several unknown keywords / wrong arguments / duplicate declarations)"),
  "C13": ("table_complete / table_sound / legal_keywords_rawable over tables REGENERATED from the source on every run, emitted_identifier_valid_partial, emit_injective, rename_preserves_binding, self_type_name_unemittable (Props/C13, Sem/Names, Generated/Keywords)", "is_keyword on every entry + near misses; emitTok = spelling of a local and a struct field in the emitted Rust; one compiled program per (binding position, name) incl. reflection (__fields__, __class_name__, JSON keys); sibling names (k, k_, _k, r_k, K) bound side by side", "renamed program behaves like the plain-named one; sibling bindings keep their own values"),
  "C14": ("resolvers_agree_partial + 3 witnesses, private_rejected, exported_iff, private_decl_rejected, work-list lemmas", "both resolvers on real trees (incl. deep entries, multi-level parents), visibility verdicts (plain and `as`-aliased imports: alias fresh, alias = another pub name, alias = a private name), export computation on generated modules imported from the entry directory and from nested packages (pkg.inner, pkg.sub.deep)", "agreement, visibility, missing/cycle"),
  "C15": ("table_pinned over the crate table REGENERATED from add_rust_crate on every run, all_pinned, unknown_refused, deps_exact, names_nodup; json_trigger_found_everywhere / async_trigger_found_everywhere (Tool/Scanners: every walker step is one the scanner follows), json_trigger_was_missed witness", "ProjectGenerator + `incan build` (stub cargo) + trigger positions (json_stringify in 40 statement / expression / owner positions; serde derives in every decorator / list / declaration position); scanner sweep: model scans = real detect_*_usage with a trigger at every expression position of ~200 programs", "exactness, pinning, refs ⊆ declared"),
- "C16": ("verdict_truthful, skip_not_run, xfail_inverts, filter_exact, all_selected_reported, exit_iff_failure, counts_match (Props/C16, Tool/TestRunner)", "real `incan test` on generated files (every executed test through cargo test)", "ground truth of the test bodies (9 ways to fail: assert, assert_eq / ne / true / false, fail, index, division by zero, unwrap of None), -k with and without --slow over matching slow tests, -x, four @skip spellings"),
+ "C16": ("verdict_truthful, skip_not_run, xfail_inverts, filter_exact, all_selected_reported, exit_iff_failure, counts_match, collect_complete / collect_sound / collect_length (discovery over several files), first_of_name_hides_a_failure witness (Props/C16, Tool/TestRunner)", "real `incan test` on generated files (every executed test through cargo test)", "ground truth of the test bodies (9 ways to fail: assert, assert_eq / ne / true / false, fail, index, division by zero, unwrap of None), -k with and without --slow over matching slow tests, -x, four @skip spellings, the same test name in two files, nested directories and a symlinked directory"),
  "C17": ("construction_validated_partial, rejected_argument_stops, own_methods_exempt, other_methods_checked, select_sound / select_from_underlying / select_single, nominal, alias_bypasses witness (Props/C17, Sem/Newtype)", "compiled programs: 11 fixed declaration shapes + generated ones (1-3 methods, hook-shaped or near misses, hook-like and other names) × 19 sites × values; 6 underlying types", "hook enforced outside own methods; mixing newtypes rejected at 26 sites (annotations, return, argument, kwarg, default, method argument, field, append / insert / extend / index / dict store, Option / Result / tuple / comprehension / match arm)"),
- "C18": ("converges for all interleavings (ticket protocol); 3 counter-examples for the old protocol; open_dependency_overrides_disk", "event-log replay; importer diagnostics with a dependency text in the editor vs on disk", "hover = latest after quiescence; dependency scenarios must be sensitive"),
- "C19": ("roundtrip, strict_mono, counting, range_wellformed, terminal_line_agrees, terminal_col_agrees (unconditional since the character-column fix; old_terminal_col_counted_bytes keeps the pre-fix witness)", "5 streams, exhaustive small documents; rendered caret line", "counting in Python"),
+ "C18": ("converges for all interleavings (ticket protocol); 3 counter-examples for the old protocol; save_with_ticket_loses_newer_version and per_document_tickets_resurrect_old_text witnesses; open_dependency_overrides_disk", "event-log replay (histories with opens, changes, closes and interleaved didSave notifications); importer diagnostics with a dependency text in the editor vs on disk", "hover = latest after quiescence; dependency scenarios must be sensitive"),
+ "C19": ("roundtrip, strict_mono, counting, range_wellformed, terminal_line_agrees, terminal_col_agrees (unconditional since the character-column fix; old_terminal_col_counted_bytes keeps the pre-fix witness)", "5 streams, exhaustive small documents over a, é, €, 😀, LF, CR, TAB; rendered caret line", "counting in Python"),
  "C20": ("roundtrip (mutual, any depth), json_field_names, type_mapping, eq_iff_structural, eq_fields, ord_lexicographic, cmpV_swap (mutual, any depth), lt_iff_gt, cmpV_refl_of_eq, hash_respects_eq, derives_closed, derives_kept, chain_fields_in_declaration_order / chain_lookup (inherited fields, Props/C20, Sem/Derive)", "compiled programs: json_stringify + from_json, six comparison operators, Dict keys, clone (fields declared on one model/class or over a chain of 2-3 classes); emitted #[derive] list for subsets", "Python json / tuple order; rustc supertrait closure"),
 }
 
@@ -73,7 +73,9 @@ Deviations from the round-0 plan (errata):
   printing/parsing have no Lean model; they are decided by the oracle on the real code.
 * C11: only rendering and the layout layer have theorems; the rest of the pipeline is a fuzzing oracle with
   panic/abort/watchdog detection, labelled as such in the evidence.
-* C18 uses one guarded hook (event log of receive/store events).
+* C18 uses one guarded hook (event log of receive/store events); C09 a second one (the formatter's output writer is
+  re-exported so that its operations can be driven directly: model = real on operation sequences, and
+  `writer_hygiene`: indentation, line breaks and blank lines never add a tab or trailing whitespace).
 * Python (the interpreter running `check`) is the oracle for C04/C05/C06/C01/C20: it *is* the reference semantics
   of the documented (Python-like) fragment.
 * C01/C02 share one core model (`Sem/Core.lean`): the *restructuring* the compiler performs (elif chains, compound
@@ -162,7 +164,9 @@ generic underlying types, unknown slice bound in consts) or findings.
     out[-1] = out[-1].replace("__R2__", str(len(r2))).replace("__R2MISSLIST__", ", ".join(miss)).replace("__R2MISS__", str(len(miss)))
     out.append("""## Appendix E — hooks
 
-One guarded hook, commit `3c16098`: `src/lsp/mod.rs` gains `#[cfg(incan_verif)] pub mod verif_hooks` (in-memory
+Two guarded hooks. Commit `b91a239`: `src/format/mod.rs` gains `#[cfg(incan_verif)] pub use writer::FormatWriter;`
+(the formatter's output writer, a private module otherwise), so that C09 can drive it operation by operation against
+the model (Tool/Writer). Commit `3c16098`: `src/lsp/mod.rs` gains `#[cfg(incan_verif)] pub mod verif_hooks` (in-memory
 event log) and `src/lsp/backend.rs` four `#[cfg(incan_verif)]` log calls (handler start, store, remove). The
 harness is built with `rustflags = ["--cfg", "incan_verif"]` (harness/.cargo/config.toml); normal builds and
 the pinned suite never see the code. `[lints.rust] unexpected_cfgs` in /repo/Cargo.toml declares the cfg name.
